@@ -67,6 +67,8 @@ type Engine struct {
 	stats      Stats
 	stop       bool
 	ifconv     atomic.Int64
+	initialWork [][]int64
+	forkSites   map[string]int
 }
 
 type Stats struct {
@@ -252,6 +254,14 @@ func (e *Exec) branch(fr *frame, cond *Term) bool {
 		return true
 	}
 	// both feasible (or unknown: keep both, sound)
+	if e.eng.conf.Verbose {
+		e.eng.mu.Lock()
+		if e.eng.forkSites == nil {
+			e.eng.forkSites = map[string]int{}
+		}
+		e.eng.forkSites[fr.pos()+" in "+fr.fn.Name()]++
+		e.eng.mu.Unlock()
+	}
 	sib := append(append([]int64{}, e.decisions...), 0)
 	e.push(sib)
 	e.recordDecision(1, false)
@@ -730,6 +740,9 @@ func stack() string {
 func (eng *Engine) Explore(harness *ssa.Function) {
 	eng.cond = sync.NewCond(&eng.mu)
 	eng.work = [][]int64{{}}
+	if eng.initialWork != nil {
+		eng.work = eng.initialWork
+	}
 	eng.touchedFns = map[string]int{}
 	eng.touchedStb = map[string]int{}
 	var wg sync.WaitGroup
